@@ -242,3 +242,6 @@ def run(ck):
     # the unlink that precedes re-creating a file may only be passed over when there was nothing to unlink (shared with C18-R6)
     from .c18 import r6_only_notfound_tolerated
     r6_only_notfound_tolerated(ck, rule="C15-R6")
+    # `existed` (unlink before re-creating) is only as good as the way files get into the map (shared with C16-R3)
+    from . import c16
+    c16.r3(ck, rule="C15-R7")
